@@ -770,6 +770,36 @@ static void line_sweep(int shard, int nshards) {
   }
 }
 
+// lines far longer than 64 KiB: a buffer of one fill byte with newlines at a few positions; only lengths, the cursor and
+// "every byte of the line is the fill byte" are logged, the expected length follows from the newline positions
+static void long_lines(vt::Rng& r) {
+  reset_event();
+  size_t n = 150000 + r.below(5000);
+  vector<long> nl = {(long)(65536 + r.below(9000)), 0, 0};
+  nl[1] = nl[0] + 1 + 65536 + (long)r.below(3);   // a second line of 65536..65538 bytes
+  nl[2] = nl[1] + 1 + 300;                         // and an ordinary one
+  char fill = (char)('a' + r.below(20));
+  char* buf = (char*)malloc(n);
+  memset(buf, fill, n);
+  for (long p : nl) buf[p] = '\n';
+  bool cr = r.chance(50);
+  if (cr) buf[nl[0] - 1] = '\r';   // the first line ends CR LF: the CR is stripped from the result, not from the cursor
+  StringReader rd(buf, n);
+  for (int k = 0; k < 5 && !rd.eof(); k++) {
+    bool adv = k != 1;   // the second call peeks
+    size_t before = rd.where();
+    string ret, out = guarded([&] { ret = rd.get_line(adv); });
+    bool allfill = true;
+    for (char ch : ret) allfill = allfill && ch == fill;
+    vt::J j;
+    j.str("e", "linebig").num("n", (long long)n).ints("nl", nl).num("cur", (long long)before).num("adv", adv).num("cr", cr ? nl[0] - 1 : -1);
+    j.str("out", out).num("retlen", (long long)ret.size()).num("allfill", allfill).num("where", (long long)rd.where());
+    tr.emit(j);
+    tr.nontrivial("linebig" + to_string(ret.size() >= 65536));
+  }
+  free(buf);
+}
+
 static void cursor_history(vt::Rng& r) {
   reset_event();
   size_t n = r.chance(20) ? 0 : r.below(40);
@@ -900,6 +930,7 @@ int main(int argc, char** argv) {
     for (size_t i = 0; i < sizes.size(); i++)
       if ((int)(i % nshards) == shard) bounds_sweep(r, sizes[i]);
     line_sweep(shard, nshards);
+    if (shard == 0 || !quick) long_lines(r);
     int n = (quick ? 200 : 5000) / nshards + 1;
     for (int i = 0; i < n; i++) {
       cursor_history(r);
